@@ -2356,3 +2356,84 @@ def local_step_rule(chk, src, rule):
             chk.ob(rule, f"{fname}[local tensor of shape {shape}]", not probs, fi.where, probs[:2] or "exp(coeff * tau * H_eff) on the flattened local tensor", "one Krylov exponential of coeff * tau * H_eff on the local tensor",
                    line=fi.node.lineno, detail="every local step of the projector splitting is an exponential of the effective Hamiltonian, also where the local tensor is a single number "
                    "(a bond of dimension one carries the phase / weight exp(coeff tau <H>) that cancels the double counting of its neighbours): " + (probs[0] if probs else ""))
+
+
+def regularized_inversion_rule(chk, src, rule):
+    """regularized_inversion interpreted on a 2 x 2 complex Hermitian overlap whose eigendecomposition is handed in as an oracle (exact, sympy): the result is
+    V diag(1 / (e + eps exp(-e / eps))) V^dagger - with the conjugated eigenvectors, not their transpose"""
+    import sympy as sp
+    from ..syminterp import SymInterp, Sym
+    fi = src.func(TEVO, "regularized_inversion")
+    e1, e2, eps = sp.Symbol("e1", positive=True), sp.Symbol("e2", positive=True), sp.Symbol("eps", positive=True)
+    V = sp.Matrix([[1, sp.I], [sp.I, 1]]) / sp.sqrt(2)
+
+    class Vec(Sym):
+        def __init__(self, v):
+            super().__init__("vector")
+            self.v = list(v)
+            self.shape = (len(self.v),)
+
+        def _b(self, o, f):
+            ov = o.v if isinstance(o, Vec) else [o] * len(self.v)
+            return Vec([f(a, b) for a, b in zip(self.v, ov)])
+
+        def __add__(self, o):
+            return self._b(o, lambda a, b: a + b)
+
+        __radd__ = __add__
+
+        def __mul__(self, o):
+            return self._b(o, lambda a, b: a * b)
+
+        __rmul__ = __mul__
+
+        def __truediv__(self, o):
+            return self._b(o, lambda a, b: a / b)
+
+        def __rtruediv__(self, o):
+            return self._b(o, lambda a, b: b / a)
+
+        def __neg__(self):
+            return Vec([-a for a in self.v])
+
+    class Mat(Sym):
+        def __init__(self, m):
+            super().__init__("matrix")
+            self.m = sp.Matrix(m)
+            self.shape = self.m.shape
+
+        @property
+        def T(self):
+            return Mat(self.m.T)
+
+        def conj(self):
+            return Mat(self.m.conjugate())
+
+        conjugate = conj
+
+        def __matmul__(self, o):
+            return Mat(self.m * o.m)
+
+        dot = __matmul__
+
+        def __truediv__(self, o):
+            if isinstance(o, Vec):                     # numpy broadcasting: column j divided by o[j]
+                return Mat(self.m * sp.diag(*[1 / x for x in o.v]))
+            return Mat(self.m / o)
+
+        def __mul__(self, o):
+            if isinstance(o, Vec):
+                return Mat(self.m * sp.diag(*o.v))
+            return Mat(self.m * o)
+
+        __rmul__ = __mul__
+    npx = Sym("np", exp=lambda v: Vec([sp.exp(x) for x in v.v]) if isinstance(v, Vec) else sp.exp(v), diag=lambda v: Mat(sp.diag(*v.v)) if isinstance(v, Vec) else Vec([v.m[i, i] for i in range(v.m.shape[0])]),
+              conj=lambda x: x.conj(), conjugate=lambda x: x.conj(), transpose=lambda x: x.T, reciprocal=lambda v: 1 / v)
+    eigh = lambda m, **k: (Vec([e1, e2]), Mat(V))       # noqa: E731
+    it = SymInterp(src, None, {"np": npx, "xp": npx, "scipy": Sym("scipy", linalg=Sym("linalg", eigh=eigh)), "asxp": lambda x: x, "asnumpy": lambda x: x})
+    out = it.call_function(fi, [Sym("overlap"), eps])
+    want = V * sp.diag(1 / (e1 + eps * sp.exp(-e1 / eps)), 1 / (e2 + eps * sp.exp(-e2 / eps))) * V.H
+    ok = isinstance(out, Mat) and sp.simplify(out.m - want) == sp.zeros(2, 2)
+    chk.ob(rule, "regularized_inversion: V diag(1 / regularised eigenvalues) V^dagger for a complex Hermitian overlap", ok, fi.where, str(getattr(out, "m", out))[:200], "V D^-1 V^dagger", line=fi.node.lineno,
+           detail="the parent-bond overlap of a complex state is complex Hermitian: with the transposed instead of the conjugated eigenvectors the result is its inverse only for real overlaps, and every "
+                  "non-root node of a variable-mean-field step in real time gets a wrong derivative")
